@@ -3474,6 +3474,19 @@ def m_reshape(ev, recv, pos, kw, st, node):
     return None
 
 
+def m_tolist(ev, recv, pos, kw, st, node):
+    """a.tolist(): the same elements as a list"""
+    if pos or kw:
+        return None
+    if isinstance(recv, Num) and recv.length is not None:
+        out = Num(recv.r, recv.length, 'list')
+        out.dt = getattr(recv, 'dt', None)
+        return out
+    if getattr(ev, 'elementwise', False) and isinstance(recv, Term) and recv.kind == 'ndarray':
+        return recv
+    return None
+
+
 def m_item(ev, recv, pos, kw, st, node):
     return recv if isinstance(recv, Num) and recv.length is None else None
 
@@ -3519,7 +3532,7 @@ def m_startswith(ev, recv, pos, kw, st, node):
 
 
 METHOD_HANDLERS = {'get': m_get, 'sum': m_sum, 'copy': m_copy, 'min': m_reduce('Min'), 'max': m_reduce('Max'), 'mean': m_reduce('Mean'),
-                   'std': m_std, 'astype': m_astype, 'flatten': m_flatten, 'reshape': m_reshape, 'ravel': m_flatten, 'item': m_item,
+                   'std': m_std, 'astype': m_astype, 'flatten': m_flatten, 'reshape': m_reshape, 'tolist': m_tolist, 'ravel': m_flatten, 'item': m_item,
                    'take': m_take, 'append': m_append, 'extend': m_extend, 'replace': m_replace,
                    'startswith': m_startswith}
 
